@@ -157,6 +157,39 @@ pub mod micromap {
                 },
         { unimplemented!() }
     }
+    // ---- std `map(f).collect::<Vec<_>>()` on the pair iterator (inherent shim methods: vstd's generic adapter model
+    // does not work inside functions with generic parameters, and every graph function has the const parameter N) ----
+    /// the collection `collect()` builds: a Vec (the only one the graph code collects into)
+    pub trait IsVecOf<B> { spec fn items(&self) -> Seq<B>; }
+    impl<B> IsVecOf<B> for Vec<B> { open spec fn items(&self) -> Seq<B> { self@ } }
+    #[verifier::external_body]
+    #[verifier::accept_recursive_types(K)]
+    #[verifier::accept_recursive_types(V)]
+    #[verifier::accept_recursive_types(B)]
+    #[verifier::accept_recursive_types(F)]
+    pub struct MapIter<'a, K, V, B, F> { p: PhantomData<(&'a (K, V), B, F)> }
+    impl<'a, K, V, B, F> MapIter<'a, K, V, B, F> {
+        pub uninterp spec fn src(&self) -> Seq<(K, V)>;
+        pub uninterp spec fn f(&self) -> F;
+    }
+    impl<'a, K, V> Iter<'a, K, V> {
+        #[verifier::external_body]
+        pub fn map<B, F: FnMut((&'a K, &'a V)) -> B>(self, f: F) -> (r: MapIter<'a, K, V, B, F>)
+            requires
+                self.pos() == 0,
+                forall|i: int| 0 <= i < self.src().len() ==> f.requires(((&(#[trigger] self.src()[i]).0, &self.src()[i].1),)),
+            ensures r.src() == self.src(), r.f() == f,
+        { unimplemented!() }
+    }
+    impl<'a, K, V, B, F: FnMut((&'a K, &'a V)) -> B> MapIter<'a, K, V, B, F> {
+        /// the result lists f(pair) for every pair, in iteration (= stored) order
+        #[verifier::external_body]
+        pub fn collect<C: IsVecOf<B>>(self) -> (r: C)
+            ensures
+                r.items().len() == self.src().len(),
+                forall|k: int| #![trigger r.items()[k]] #![trigger self.src()[k]] 0 <= k < self.src().len() ==> self.f().ensures(((&self.src()[k].0, &self.src()[k].1),), r.items()[k]),
+        { unimplemented!() }
+    }
     impl<K: Clone, V: Clone, const N: usize> Clone for Map<K, V, N> {
         #[verifier::external_body]
         fn clone(&self) -> (r: Self) ensures r.view() == self.view() { unimplemented!() }
